@@ -710,7 +710,7 @@ def segment_level(rng, n):
     return fails, ev
 
 
-FAMILIES = ['random', 'random', 'random', 'near-touch', 'flatten-round', 'append-mutate', 'self-append', 'closed-append', 'clone-chain', 'open-return', 'double-append', 'requery', 'nodelist-start']
+FAMILIES = ['random', 'random', 'random', 'near-touch', 'flatten-round', 'append-mutate', 'self-append', 'closed-append', 'clone-chain', 'open-return', 'double-append', 'requery', 'nodelist-start', 'start-mid-edge']
 
 
 def family_history(rng, fam, maxlen):
@@ -762,6 +762,20 @@ def family_history(rng, fam, maxlen):
         ops = [['append', 0, 1], ['append', 0, 1]] + [rng.choice([['reverse', 0], ['translate', 0, 3.0, -2.0], ['scale', 0, 2.0], ['rotate', 0, 1.0, 2.0, 0.5], ['addExtremes', 0],
                                                                   ['flatten', 0, 8], ['clone', 0], ['asNodelist', 0]]) for _ in range(rng.randint(1, 3))]
         return {'init': [a, b], 'ops': ops}
+    if fam == 'start-mid-edge':
+        # a CLOSED outline whose start point lies in the middle of a straight edge: the first and the last segment are lines heading the same way
+        a = rand_init_path(rng, ints=ints, closed=True, nseg=rng.randint(3, 5), style=rng.choice(['mixed', 'lines']))
+        segs = a['segments']
+        p0 = segs[0]['points'][0]; p1 = segs[0]['points'][-1]
+        back = [p0[0] - (p1[0] - p0[0]) * rng.choice([0.5, 1.0, 2.0]), p0[1] - (p1[1] - p0[1]) * rng.choice([0.5, 1.0, 2.0])]
+        if ints: back = [float(round(back[0])), float(round(back[1]))]
+        back = [p0[0] - (p1[0] - p0[0]), p0[1] - (p1[1] - p0[1])] if rng.random() < 0.5 else back
+        segs[0] = {'kind': 'Line', 'points': [list(p0), list(p1)]}
+        prev_end = segs[-1]['points'][0]
+        segs[-1] = {'kind': 'Line', 'points': [list(prev_end), list(back)]}
+        segs.append({'kind': 'Line', 'points': [list(back), list(p0)]})
+        ops = [rand_simple(rng, 0) for _ in range(rng.randint(0, 2))] + [['remove', 0, rng.choice([1 / 50000, 0.2, 0.05]), rng.choice([0, 5.0, 30.0])]] + [rng.choice([['reverse', 0], ['round', 0], ['asNodelist', 0], ['clone', 0]]) for _ in range(rng.randint(0, 1))]
+        return {'init': [a], 'ops': ops}
     if fam == 'nodelist-start':
         a = rand_init_path(rng, ints=ints, closed=True, nseg=rng.randint(2, 5), style='mixed')
         a['via'] = 'nodelist'; a['rot'] = rng.randint(0, 12)
